@@ -127,6 +127,225 @@ def rand_objs(rng, max_headers=3):
     return o
 
 
+# --------------------------------------------------------------------------------------------
+# every object kind the ReadHandler can be given (family `objects` of C15): written from the object library of
+# IEEE 1815 and from the line format of harness/master.rs, NOT from the Coq conversion model.  The composed model
+# `mfull` must compute the same tokens from the octets alone.
+
+TIME_MAX = (1 << 48) - 1
+F32_POOL = [0x00000000, 0x80000000, 0x3F800000, 0xBFC00000, 0x7F7FFFFF, 0xFF7FFFFF, 0x7F800000, 0xFF800000, 0x00000001,
+            0x42280000, 0x7FC00000, 0x4B800000]
+F64_POOL = [0x0, 0x8000000000000000, 0x3FF0000000000000, 0x7FF0000000000000, 0xFFF0000000000000, 0x7FF8000000000000,
+            0x7FF0000000000001, 0x1, 0x4045000000000000, 0xC1E0000000000000]
+
+# value layouts: (name of the value field, struct code or None) per (group, variation); f = flags octet, t = 48-bit time,
+# r = 16-bit time relative to the common time of occurrence
+STATIC_LAYOUT = {
+    (1, 2): ("bi", "f"), (3, 2): ("dbi", "f"), (10, 2): ("bos", "f"),
+    (20, 1): ("ctr", "fI"), (20, 2): ("ctr", "fH"), (20, 5): ("ctr", "I"), (20, 6): ("ctr", "H"),
+    (21, 1): ("fctr", "fI"), (21, 2): ("fctr", "fH"), (21, 5): ("fctr", "fIt"), (21, 6): ("fctr", "fHt"),
+    (21, 9): ("fctr", "I"), (21, 10): ("fctr", "H"),
+    (30, 1): ("ai", "fi"), (30, 2): ("ai", "fh"), (30, 3): ("ai", "i"), (30, 4): ("ai", "h"), (30, 5): ("ai", "fe"), (30, 6): ("ai", "fd"),
+    (31, 1): ("fai", "fi"), (31, 2): ("fai", "fh"), (31, 3): ("fai", "fit"), (31, 4): ("fai", "fht"), (31, 5): ("fai", "i"),
+    (31, 6): ("fai", "h"), (31, 7): ("fai", "fe"), (31, 8): ("fai", "fd"),
+    (40, 1): ("aos", "fi"), (40, 2): ("aos", "fh"), (40, 3): ("aos", "fe"), (40, 4): ("aos", "fd"),
+}
+EVENT_LAYOUT = {
+    (2, 1): ("bi", "f"), (2, 2): ("bi", "ft"), (2, 3): ("bi", "fr"),
+    (4, 1): ("dbi", "f"), (4, 2): ("dbi", "ft"), (4, 3): ("dbi", "fr"),
+    (11, 1): ("bos", "f"), (11, 2): ("bos", "ft"),
+}
+for _g, _k in ((22, "ctr"), (23, "fctr")):
+    EVENT_LAYOUT.update({(_g, 1): (_k, "fI"), (_g, 2): (_k, "fH"), (_g, 5): (_k, "fIt"), (_g, 6): (_k, "fHt")})
+for _g, _k in ((32, "ai"), (33, "fai"), (42, "aos")):
+    EVENT_LAYOUT.update({(_g, 1): (_k, "fi"), (_g, 2): (_k, "fh"), (_g, 3): (_k, "fit"), (_g, 4): (_k, "fht"),
+                         (_g, 5): (_k, "fe"), (_g, 6): (_k, "fd"), (_g, 7): (_k, "fet"), (_g, 8): (_k, "fdt")})
+
+
+def rand_time(rng):
+    return rng.choice([0, 1, 1700000000000, TIME_MAX, TIME_MAX - 3, rng.below(1 << 48)])
+
+
+def rand_object(rng, kind, layout, cto):
+    """one fixed-size object -> (octets, `<value>,<flags>,<time>` as harness/master.rs prints the measurement)"""
+    data = b""
+    flags, value, time = 0x01, None, "n"          # a variation without flags reports ONLINE
+    for code in layout:
+        if code == "f":
+            flags = rng.choice([0x01, 0x81, 0x00, 0x41, 0xC1, 0x21, 0x7F, 0xFF, rng.below(256)])
+            data += bytes([flags])
+        elif code in "IH":
+            bits = 32 if code == "I" else 16
+            v = rng.choice([0, 1, (1 << bits) - 1, rng.below(1 << bits)])
+            data += v.to_bytes(bits // 8, "little")
+            value = "%d" % v
+        elif code in "ih":
+            bits = 32 if code == "i" else 16
+            v = rng.choice([0, 1, -1, (1 << (bits - 1)) - 1, -(1 << (bits - 1)), rng.range(-100000, 100000) % (1 << (bits - 1))])
+            data += (v % (1 << bits)).to_bytes(bits // 8, "little")
+            value = "%016x" % f64_bits(v)
+        elif code == "e":
+            b = rng.choice(F32_POOL)
+            data += struct.pack("<I", b)
+            value = "%016x" % f64_bits(struct.unpack("<f", struct.pack("<I", b))[0])
+        elif code == "d":
+            b = rng.choice(F64_POOL) if rng.chance(2, 3) else rng.below(1 << 64)
+            data += struct.pack("<Q", b)
+            value = "%016x" % b
+        elif code == "t":
+            t = rand_time(rng)
+            data += t.to_bytes(6, "little")
+            time = "s%d" % t
+        elif code == "r":
+            r = rng.choice([0, 1, 65535, rng.below(65536)])
+            data += struct.pack("<H", r)
+            if cto is not None and cto[1] + r <= TIME_MAX:
+                time = "%s%d" % (cto[0], cto[1] + r)
+    if kind in ("bi", "bos"):
+        value = "%d" % (flags >> 7)
+    elif kind == "dbi":
+        value = "%d" % (flags >> 6)
+    return data, "%s,%02x,%s" % (value, flags, time)
+
+
+class WideObjs(Objs):
+    """an object section over the whole object library; `unmodelled` = it has a header whose callbacks the Coq
+    conversion model (App/Convert.v) does not describe"""
+    def __init__(self):
+        Objs.__init__(self)
+        self.cto = None
+        self.unmodelled = False
+        self.kinds = []
+
+    def range_header(self, rng, g, v, n):
+        wide = rng.chance(1, 3)
+        start = rng.choice([0, rng.below(200), 255 - n + 1]) if not wide else rng.choice([0, 256, 65535 - n + 1, rng.below(60000)])
+        hdr = bytes([g, v, 1 if wide else 0]) + (struct.pack("<HH", start, start + n - 1) if wide else bytes([start, start + n - 1]))
+        return hdr, ("01" if wide else "00"), start
+
+    def prefix_header(self, rng, g, v, n):
+        wide = rng.chance(1, 2)
+        hdr = bytes([g, v, 0x28 if wide else 0x17]) + (struct.pack("<H", n) if wide else bytes([n]))
+        idx = [rng.choice([0, 255, rng.below(256)]) if not wide else rng.choice([0, 255, 256, 65535, rng.below(65536)]) for _ in range(n)]
+        return hdr, ("28" if wide else "17"), idx, (2 if wide else 1)
+
+    def add_any(self, rng):
+        k = rng.below(16)
+        n = rng.range(1, 3)
+        if k <= 3:                                   # static fixed-size objects
+            (g, v), (kind, layout) = rng.choice(sorted(STATIC_LAYOUT.items()))
+            hdr, q, start = self.range_header(rng, g, v, n)
+            body, items = b"", []
+            for i in range(n):
+                d, txt = rand_object(rng, kind, layout, None)
+                body += d
+                items.append("%s/g%dv%d/%s/e0f%d/%d=%s" % (kind, g, v, q, 1 if "f" in layout else 0, start + i, txt))
+            self._add(hdr + body, items)
+            self.kinds.append("g%dv%d" % (g, v))
+        elif k <= 7:                                 # events, with and without a common time of occurrence
+            (g, v), (kind, layout) = rng.choice(sorted(EVENT_LAYOUT.items()))
+            if "r" in layout and rng.chance(3, 4):
+                self.add_cto(rng)
+            hdr, q, idx, w = self.prefix_header(rng, g, v, n)
+            body, items = b"", []
+            for i in idx:
+                d, txt = rand_object(rng, kind, layout, self.cto)
+                body += i.to_bytes(w, "little") + d
+                items.append("%s/g%dv%d/%s/e1f1/%d=%s" % (kind, g, v, q, i, txt))
+            self._add(hdr + body, items)
+            self.kinds.append("g%dv%d" % (g, v))
+        elif k == 8:                                 # packed single-bit objects
+            g, kind = rng.choice([(1, "bi"), (10, "bos")])
+            n = rng.range(1, 19)
+            hdr, q, start = self.range_header(rng, g, 1, n)
+            bits = [rng.below(2) for _ in range(n)]
+            body = bytes(sum(b << j for j, b in enumerate(bits[i:i + 8])) for i in range(0, n, 8))
+            self._add(hdr + body, ["%s/g%dv1/%s/e0f0/%d=%d,01,n" % (kind, g, q, start + i, b) for i, b in enumerate(bits)])
+            self.kinds.append("g%dv1" % g)
+        elif k == 9:                                 # packed double-bit objects
+            n = rng.range(1, 9)
+            hdr, q, start = self.range_header(rng, 3, 1, n)
+            vals = [rng.below(4) for _ in range(n)]
+            body = bytes(sum(b << (2 * j) for j, b in enumerate(vals[i:i + 4])) for i in range(0, n, 4))
+            self._add(hdr + body, ["dbi/g3v1/%s/e0f0/%d=%d,01,n" % (q, start + i, b) for i, b in enumerate(vals)])
+            self.kinds.append("g3v1")
+        elif k == 10:                                # octet strings
+            ln = rng.range(1, 5)
+            strings = [rng.bytes(ln) for _ in range(n)]
+            if rng.chance(1, 2):
+                hdr, q, start = self.range_header(rng, 110, ln, n)
+                self._add(hdr + b"".join(strings), ["octet/g110v%d/%s/e0f0/%d=%s" % (ln, q, start + i, s.hex()) for i, s in enumerate(strings)])
+            else:
+                hdr, q, idx, w = self.prefix_header(rng, 111, ln, n)
+                self._add(hdr + b"".join(i.to_bytes(w, "little") + s for i, s in zip(idx, strings)),
+                          ["octet/g111v%d/%s/e1f0/%d=%s" % (ln, q, i, s.hex()) for i, s in zip(idx, strings)])
+            self.kinds.append("octets")
+        elif k == 11:
+            self.add_cto(rng)
+        elif k == 12:                                # absolute time: delivered when the count is one
+            c = rng.choice([1, 1, 1, 2])
+            wide = rng.chance(1, 3)
+            ts = [rand_time(rng) for _ in range(c)]
+            hdr = bytes([50, 1, 8 if wide else 7]) + (struct.pack("<H", c) if wide else bytes([c]))
+            self._add(hdr + b"".join(t.to_bytes(6, "little") for t in ts),
+                      ["abs/g50v1/%s/e0f0/0=%d" % ("08" if wide else "07", ts[0])] if c == 1 else [])
+            self.kinds.append("g50v1")
+        elif k == 13:                                # headers no handler is called for
+            j = rng.below(6)
+            if j == 0:
+                self._add(bytes([80, 1, 0, 0, 15, rng.below(256), rng.below(256)]), [])          # internal indications
+            elif j == 1:
+                self._add(bytes([52, rng.choice([1, 2]), 7, 1]) + rng.bytes(2), [])               # time delay
+            elif j == 2:
+                self._add(bytes([60, rng.choice([1, 2, 3, 4]), 6]), [])                           # all objects
+            elif j == 3:
+                self._add(bytes([12, 1, 0x17, 1, rng.below(256)]) + rng.bytes(10) + b"\x00", [])    # a command echo
+            elif j == 4:
+                self._add(bytes([34, 1, 0x17, 1, rng.below(256)]) + rng.bytes(2), [])             # dead-band with an index prefix
+            else:
+                self._add(bytes([rng.choice([1, 3, 10, 20, 21, 30, 31, 40]), 0, 0, 3, 5]), [])    # variation 0 with a range: no objects
+            self.kinds.append("ignored")
+        elif k == 14:                                # analog dead-bands with a range: delivered, not in the conversion model
+            v = rng.choice([1, 2, 3])
+            hdr, q, start = self.range_header(rng, 34, v, n)
+            body, items = b"", []
+            for i in range(n):
+                if v == 1:
+                    x = rng.below(65536); body += struct.pack("<H", x); txt = "a%d" % x
+                elif v == 2:
+                    x = rng.below(1 << 32); body += struct.pack("<I", x); txt = "b%d" % x
+                else:
+                    x = rng.choice(F32_POOL); body += struct.pack("<I", x); txt = "c%08x" % x
+                items.append("aidb/g34v%d/%s/e0f0/%d=%s" % (v, q, start + i, txt))
+            self._add(hdr + body, items)
+            self.unmodelled = True
+            self.kinds.append("g34")
+        else:                                        # unsigned integers g102v1: delivered, not in the conversion model
+            hdr, q, start = self.range_header(rng, 102, 1, n)
+            vals = [rng.below(256) for _ in range(n)]
+            self._add(hdr + bytes(vals), ["uint/g102v1/%s/e0f0/%d=%d" % (q, start + i, x) for i, x in enumerate(vals)])
+            self.unmodelled = True
+            self.kinds.append("g102")
+
+    def add_cto(self, rng):
+        v = rng.choice([1, 2])
+        c = rng.choice([1, 1, 1, 1, 2])
+        wide = rng.chance(1, 4)
+        ts = [rng.choice([0, 5, TIME_MAX, TIME_MAX - 100, TIME_MAX - 65535, rng.below(1 << 48)]) for _ in range(c)]
+        hdr = bytes([51, v, 8 if wide else 7]) + (struct.pack("<H", c) if wide else bytes([c]))
+        self._add(hdr + b"".join(t.to_bytes(6, "little") for t in ts), [])
+        if c == 1:                                   # a count of two is not a common time of occurrence
+            self.cto = ("s" if v == 1 else "u", ts[0])
+        self.kinds.append("g51v%d" % v)
+
+
+def wide_objs(rng, max_headers=3):
+    o = WideObjs()
+    for _ in range(rng.range(1, max_headers)):
+        o.add_any(rng)
+    return o
+
+
 def malformed(rng, o):
     """a malformed variant of a well-formed object section"""
     k = rng.below(4)
@@ -430,6 +649,52 @@ class Tracker:
                 self.connected = False
                 self.cur = None
                 self.last_unsol = None
+
+
+# --------------------------------------------------------------------------------------------
+# second model pass: the composed master model (engine `mfull`, coq/Master/MFull.v)
+
+class MasterProp(Prop):
+    """base of C15 / C16.  Engine `master` (Master/MTask.v) is given, with every `rx` op, the generator's claim of
+    what the real object parser says about the fragment (ok / bad / none) and of the measurement items the
+    ReadHandler receives.  The composed model computes both from the received octets (App/Grammar.v for the
+    verdict, App/Convert.v - the conversion model of C10 - for the items): engine `mfull` reads the SAME script,
+    ignores those tokens and must predict the implementation's whole trace, `pv` and `cb` lines included."""
+    extra_name = "mfull"
+    extra_what = ("composed master model `mfull`: verdict of the object parser (Grammar) and delivered measurement "
+                  "items (C10 conversion model) computed from the received octets, not read from the script")
+
+    def extra_model_script(self, case, impl):
+        """the script for engine `mfull`, or None when there is nothing to compare: another engine, an
+        implementation-only script, or the implementation panicked / the harness died (reported by the oracle).
+        Fragments with objects whose callbacks the conversion model does not describe (g0, g34 ranges, g102, g13,
+        g43) are recognised by the model itself: it prints `model-unmodelled` (see extra_canon)."""
+        self._mfull_skips = getattr(self, "_mfull_skips", {})
+        lines = [l for l in case.script.split("\n") if l.strip()]
+        head = lines[0].split()
+        why = None
+        if len(head) < 3 or head[2] != "master":
+            why = "other engine"
+        elif case.meta.get("impl_only"):
+            why = "implementation-only script"
+        elif any(l.startswith("panic") or l.startswith("harness-died") or l == "missing" for l in impl):
+            why = "implementation panicked or harness died"
+        if why:
+            self._mfull_skips[why] = self._mfull_skips.get(why, 0) + 1
+            return None
+        return "\n".join([" ".join(head[:2] + ["mfull"] + head[3:])] + lines[1:])
+
+    def extra_canon(self, lines, side):
+        """both sides verbatim; None = the model declared the script outside its domain"""
+        if side == "model" and any(l.strip() == "model-unmodelled" for l in lines):
+            self._mfull_skips = getattr(self, "_mfull_skips", {})
+            k = "objects outside the conversion model (model-unmodelled)"
+            self._mfull_skips[k] = self._mfull_skips.get(k, 0) + 1
+            return None
+        return list(lines)
+
+    def coverage_extra(self):
+        return {"second_pass_not_covered": dict(getattr(self, "_mfull_skips", {}))}
 
 
 def machinery_failures(impl):
